@@ -393,17 +393,32 @@ def gen_translators():
     the translators expect is gone (broken tie, never silently skipped)."""
     sys.path.insert(0, str(VERIF / "tools"))
     import gen_consts, importlib.util
-    try:
-        summary = gen_consts.generate(REPO, COQ / "theories" / "Gen")
-        # further translators: tools/gen.d/*.py, each exposing generate(repo, outdir) -> dict
-        for f in sorted((VERIF / "tools" / "gen.d").glob("*.py")):
-            spec = importlib.util.spec_from_file_location("gen_" + f.stem, f)
-            mod = importlib.util.module_from_spec(spec)
-            spec.loader.exec_module(mod)
-            summary.update(mod.generate(REPO, COQ / "theories" / "Gen") or {})
-        return summary
-    except gen_consts.TieError as e:
-        raise TieError(str(e))
+    gen = COQ / "theories" / "Gen"
+    # Under the Coq lock: the generated files are rewritten AND compiled before anyone else can start a
+    # make that would read a half-updated Gen (stale .vo newer than a re-written .v).
+    with Lock(COQ / ".lock"):
+        before = {q.name: q.read_bytes() for q in gen.glob("*.v")} if gen.exists() else {}
+        try:
+            summary = gen_consts.generate(REPO, gen)
+            # further translators: tools/gen.d/*.py, each exposing generate(repo, outdir) -> dict
+            for f in sorted((VERIF / "tools" / "gen.d").glob("*.py")):
+                spec = importlib.util.spec_from_file_location("gen_" + f.stem, f)
+                mod = importlib.util.module_from_spec(spec)
+                spec.loader.exec_module(mod)
+                summary.update(mod.generate(REPO, gen) or {})
+        except gen_consts.TieError as e:
+            raise TieError(str(e))
+        after = {q.name: q.read_bytes() for q in gen.glob("*.v")}
+        changed = [n for n in after if before.get(n) != after[n] or not (gen / n).with_suffix(".vo").exists()]
+        if changed:
+            coq_project()
+            for n in changed:      # force: remove the old object so that no stale .vo survives
+                for suf in (".vo", ".vos", ".vok", ".glob"):
+                    q = (gen / n).with_suffix(suf)
+                    if q.exists():
+                        q.unlink()
+            sh(["timeout", "600", "make", "-k", "-j", str(NCPU)] + ["theories/Gen/" + n + "o" for n in changed], cwd=COQ)
+    return summary
 
 
 class TieError(Exception):
